@@ -2,6 +2,7 @@ SPECIFICATION TraceSpec
 CONSTANTS
   MaxDev = 0
   NamesSet = {"utf8", "legacy"}
+  SchemaSet = {"prometheus", "thanos"}
   CoreOnly = FALSE
   Gaps = {}
 CHECK_DEADLOCK FALSE
